@@ -308,3 +308,72 @@ Proof.
   repeat constructor; eexists; (split; [reflexivity|]); split;
     try (repeat constructor; cbn; intuition congruence); intros x Hx; cbn in *; intuition.
 Qed.
+
+(* ================= the PRIMITIVES of the wrapper / hold-out / generator links are theorems =================
+   (see the same section of Props/C13.v for the representation and the side conditions)  The translated Screen.combine,
+   ScreenSubset.to_screen, Screen.subset / subset_unobserved / subset_observed and ScreenBase.is_observed
+   (Generated/SrcViews.v, Generated/SrcPlates.v; equal to their Model/Views.v models by Props/C14.v), read through the
+   representation, are [combine_screens], [Retro.to_screen], [subset_of], [Retro.subset_unobserved] / [Retro.subset_observed],
+   `forallb r_mask` and [vec_observed]: the meanings the configurations C11_* / C13_* gave to those calls. *)
+From Batchie Require Import Lib.PyRt Model.Views Generated.SrcViews Generated.SrcPlates
+  Proofs.C14Defs Proofs.C14ToScreen Proofs.C13SourceHelpers.
+
+(* primitive `__a.combine(__b)` -> [combine_screens] (the wrappers, PlatePermutation, Pairwise): on two valid screens of one
+   arity and control name (both descend from one screen) the translated Screen.combine is refused (mixed plate, tag 2) exactly
+   when [construct] refuses the concatenated rows, and otherwise builds a fresh screen with those rows, self's first *)
+Theorem C11_model_is_source_screen_combine : forall a b : pyscreen,
+  screen_valid (snd a) -> screen_valid (snd b) -> s_arity (snd b) = s_arity (snd a) -> s_ctrl (snd b) = s_ctrl (snd a) ->
+  res_rows (src_screen_combine a b) = combine_screens (s_rows (snd a)) (s_rows (snd b)) /\
+  (forall s, src_screen_combine a b = Ok s ->
+     fresh_screen s /\ s_arity s = s_arity (snd a) /\ s_ctrl s = s_ctrl (snd a)).
+Proof. exact src_screen_combine_is_combine_screens. Qed.
+Print Assumptions C11_model_is_source_screen_combine.
+
+(* primitives `__s.subset(__v)` -> [subset_of] and `__s.to_screen()` -> [Retro.to_screen]: the view selects subset_of's rows;
+   to_screen() of a view of a valid screen is never refused and yields a fresh screen with exactly those rows *)
+Theorem C11_model_is_source_subset_to_screen :
+  (forall (t : Z) (p : screen) (v : bvec), length v = screen_size p ->
+     exists w, src_screen_subset (t, p) (true, v) = Ok w /\ view_rows w = subset_of (s_rows p) v /\
+               v_tag w = t /\ v_parent w = p /\ v_sel w = v /\ view_ok w) /\
+  (forall v : view, screen_valid (v_parent v) ->
+     exists s, src_to_screen v = Ok s /\ s_rows s = Retro.to_screen (subset_of (s_rows (v_parent v)) (v_sel v)) /\
+               fresh_screen s /\ s_arity s = s_arity (v_parent v) /\ s_ctrl s = s_ctrl (v_parent v)).
+Proof. exact (conj src_screen_subset_is_subset_of src_to_screen_is_retro_to_screen). Qed.
+Print Assumptions C11_model_is_source_subset_to_screen.
+
+(* primitives `__s.subset_unobserved()` / `__s.subset_observed()`: None exactly when Retro's is None, else a view of the screen
+   whose rows are Retro's unobserved / observed rows *)
+Theorem C11_model_is_source_subset_unobserved_observed :
+  (forall (t : Z) (p : screen), screen_wf p ->
+     exists o, src_subset_unobserved (t, p) = Ok o /\ option_map view_rows o = Retro.subset_unobserved (s_rows p) /\
+               (forall w, o = Some w -> v_tag w = t /\ v_parent w = p /\ view_ok w)) /\
+  (forall (t : Z) (p : screen), screen_wf p ->
+     exists o, src_subset_observed (t, p) = Ok o /\ option_map view_rows o = Retro.subset_observed (s_rows p) /\
+               (forall w, o = Some w -> v_tag w = t /\ v_parent w = p /\ view_ok w)).
+Proof. exact (conj src_subset_unobserved_is_retro src_subset_observed_is_retro). Qed.
+Print Assumptions C11_model_is_source_subset_unobserved_observed.
+
+(* primitives `__s.is_observed` -> `forallb r_mask` (the initial-plate wrapper) and `__p.is_observed` -> [vec_observed]
+   (the balanced hold-out) *)
+Theorem C11_model_is_source_is_observed :
+  (forall s : pyscreen, src_screen_is_observed s = Ok (forallb r_mask (s_rows (snd s)))) /\
+  (forall v : view, src_view_is_observed v = Ok (vec_observed (v_sel v) (s_rows (v_parent v)))).
+Proof. exact src_is_observed_is_retro. Qed.
+Print Assumptions C11_model_is_source_is_observed.
+
+(* non-vacuity: the wrapper's own sequence on the example screen through the translated helpers - split, to_screen both
+   parts, recombine unobserved-first - against the Retro primitives on the rows *)
+Example C11_helpers_example :
+  match mk_screen ex_rows 2 [] None None true true with
+  | Ok s =>
+      match (dor u <- src_subset_unobserved (0%Z, s); dor o <- src_subset_observed (0%Z, s);
+             dor u' <- unwrap u; dor o' <- unwrap o; dor us <- src_to_screen u'; dor os <- src_to_screen o';
+             dor c <- src_screen_combine (1%Z, us) (2%Z, os); Ok (s_rows us, s_rows os, s_rows c)) with
+      | Ok (ur, orr, cr) =>
+          Some ur = Retro.subset_unobserved ex_rows /\ Some orr = Retro.subset_observed ex_rows /\
+          Ok cr = combine_screens ur orr
+      | Err _ => False
+      end
+  | Err _ => False
+  end.
+Proof. vm_compute. repeat split. Qed.
